@@ -171,10 +171,10 @@ func c14Run(rc *sim.RunCtx) {
 	var earlierBC *ugo.Bytecode
 	earlierAbortAt := int64(0)
 	if earlier && t.Bool(1, 2) {
-		earlierAbortAt = int64(5 + t.Draw(250))
+		earlierAbortAt = int64(5 + t.Draw(700))
 	}
 	if earlier {
-		earlierBC = mustCompile(sim.PreludeCall+c14Warmup+c14EarlierDeep+"return wm.get()\n", mm, false)
+		earlierBC = mustCompile(sim.PreludeCall+c14EarlierDeep+c14Warmup+"return wm.get()\n", mm, false)
 		rc.Probe("root-vm-ran-another-script-before")
 	}
 	run := func(bc *ugo.Bytecode, policy int) (c08Result, *sim.World, *sim.SimPool) {
